@@ -29,6 +29,15 @@ theorem Fwd.step {hdr P g g1 g2} (hf : Fwd hdr P g g1) (ha : g1.Adv g2) : Fwd hd
   obtain ⟨hi2, hs, hl, hk, htk, hov⟩ := hf.gi.adv ha
   exact ⟨hi2, hf.same.trans hs, Nat.le_trans hf.len hl, fun h => hk (hf.kept h), htk.trans hf.taken, fun h => hov (hf.over h)⟩
 
+theorem RxGI.faulted {hdr P g} (hi : RxGI hdr P g) : RxGI hdr P { g with faulted := true } :=
+  ⟨⟨hi.wf.overPending, hi.wf.readyOver, hi.wf.crc, hi.wf.crcReady, hi.wf.room⟩, hi.live, hi.stream⟩
+
+/-- a failed transfer after some arrivals -/
+theorem Fwd.stepF {hdr P g g1 g2} (hf : Fwd hdr P g g1) (ha : g1.AdvF g2) : Fwd hdr P g g2 ∧ g2.faulted = true := by
+  obtain ⟨g1', ha', rfl⟩ := ha
+  have f := hf.step ha'
+  exact ⟨⟨f.gi.faulted, ⟨f.same.cfg1, f.same.cfg2, f.same.plen, f.same.crcGood, f.same.cbs, f.same.ended, f.same.poison⟩, f.len, f.kept, f.taken, f.over⟩, rfl⟩
+
 theorem take_prefix {a b c d : List UInt8} (h : a ++ b = c ++ d) (hl : c.length ≤ a.length) : a.take c.length = c := by
   have h1 : (a ++ b).take c.length = a.take c.length := by
     rw [List.take_append_of_le_length hl]
@@ -79,10 +88,12 @@ def HdrOk (fmt : Nat) (g : RxG) (hdr P : List UInt8) : Prop :=
 theorem header_spec (hdr P : List UInt8) (h : Handle) (g : RxG) (hi : RxGI hdr P g) (hexp : h.expected = 0)
     (htk : g.taken = []) (hfifo : hdr.length ≤ g.fifo.length) (hok : HdrOk h.format g hdr P) :
     DM.gwp rxE readPayloadHeader h g (fun g' r h' =>
-      r = .ok (some hdr.length) ∧ h' = { h with expected := UInt16.ofNat P.length } ∧ RxGI hdr P g' ∧ g'.taken = hdr
+      (r = .ok (some hdr.length) ∧ h' = { h with expected := UInt16.ofNat P.length } ∧ RxGI hdr P g' ∧ g'.taken = hdr
       ∧ g.fifo.length ≤ g'.fifo.length + hdr.length ∧ g.Same g'
       ∧ ((g.over = true → g.ready = true) → hdr.length < g.fifo.length → (g'.over = true → g'.ready = true))
-      ∧ (g.over = true → g'.over = true)) := by
+      ∧ (g.over = true → g'.over = true))
+      -- a transfer failed: nothing was taken out of the FIFO and the handle is what it was
+      ∨ (∃ c, r = .error c ∧ h' = h ∧ Fwd hdr P g g' ∧ g'.faulted = true)) := by
   unfold readPayloadHeader
   rw [gwp_bind, gwp_getH]
   dsimp only
@@ -90,7 +101,9 @@ theorem header_spec (hdr P : List UInt8) (h : Handle) (g : RxG) (hi : RxGI hdr P
   unfold fskOokIsAddressFiltered
   rw [gwp_bind, gwp_bind, gwp_rread]
   intro r1 g1 hr1
-  obtain ⟨hr1v, ha1⟩ := (rx_cfg hi.live _ r1 g1 hr1).1 rfl
+  rcases rx_cfg hi.live _ r1 g1 hr1 with ⟨c, hre, hae⟩ | hcfg
+  · subst hre; exact Or.inr ⟨c, rfl, rfl, ((Fwd.refl hi).stepF hae).1, ((Fwd.refl hi).stepF hae).2⟩
+  obtain ⟨hr1v, ha1⟩ := hcfg.1 rfl
   subst hr1v
   have f1 : Fwd hdr P g g1 := (Fwd.refl hi).step ha1
   dsimp only
@@ -107,7 +120,8 @@ theorem header_spec (hdr P : List UInt8) (h : Handle) (g : RxG) (hi : RxGI hdr P
       rw [hhdr, List.length_cons, hrest]; cases af <;> rfl
     rw [hn, gwp_bind, gwp_bread]
     intro r2 g2 hr2
-    obtain ⟨d, g1', hr2v, ha2, hg2, hdl, hdv⟩ := rx_bread f1.gi.live _ r2 g2 hr2
+    rcases rx_bread f1.gi.live _ r2 g2 hr2 with ⟨c, hre, hae⟩ | ⟨d, g1', hr2v, ha2, hg2, hdl, hdv⟩
+    · subst hre; exact Or.inr ⟨c, rfl, rfl, (f1.stepF hae).1, (f1.stepF hae).2⟩
     subst hr2v hg2
     have f2 := f1.step ha2
     obtain ⟨hpre, hgi, htk', hlen', hsame, hkept, hover'⟩ := take_hdr f2 htk hfifo
@@ -117,7 +131,7 @@ theorem header_spec (hdr P : List UInt8) (h : Handle) (g : RxG) (hi : RxGI hdr P
     rw [gwp_bind, gwp_modH]
     dsimp only
     rw [gwp_pure]
-    refine ⟨rfl, ?_, hgi, htk', hlen', hsame, hkept, hover'⟩
+    refine Or.inl ⟨rfl, ?_, hgi, htk', hlen', hsame, hkept, hover'⟩
     have hl0 : (len :: rest).getD 0 0 = len := rfl
     simp only [hhdr, hl0]
     congr 1
@@ -141,13 +155,17 @@ theorem header_spec (hdr P : List UInt8) (h : Handle) (g : RxG) (hi : RxGI hdr P
     unfold fskOokReadFixedPacketLength
     rw [gwp_bind, gwp_bind, gwp_rread]
     intro r2 g2 hr2
-    obtain ⟨hr2v, ha2⟩ := (rx_cfg f1.gi.live _ r2 g2 hr2).2.1 rfl
+    rcases rx_cfg f1.gi.live _ r2 g2 hr2 with ⟨c, hre, hae⟩ | hcfg2
+    · subst hre; exact Or.inr ⟨c, rfl, rfl, (f1.stepF hae).1, (f1.stepF hae).2⟩
+    obtain ⟨hr2v, ha2⟩ := hcfg2.2.1 rfl
     subst hr2v
     have f2 := f1.step ha2
     dsimp only
     rw [gwp_bind, gwp_rread]
     intro r3 g3 hr3
-    obtain ⟨hr3v, ha3⟩ := (rx_cfg f2.gi.live _ r3 g3 hr3).2.2.1 rfl
+    rcases rx_cfg f2.gi.live _ r3 g3 hr3 with ⟨c, hre, hae⟩ | hcfg3
+    · subst hre; exact Or.inr ⟨c, rfl, rfl, (f2.stepF hae).1, (f2.stepF hae).2⟩
+    obtain ⟨hr3v, ha3⟩ := hcfg3.2.2.1 rfl
     subst hr3v
     have f3 := f2.step ha3
     dsimp only
@@ -176,7 +194,8 @@ theorem header_spec (hdr P : List UInt8) (h : Handle) (g : RxG) (hi : RxGI hdr P
       simp only [if_true] at hhl ⊢
       rw [if_pos (by decide), ← hhl, gwp_bind, gwp_bread]
       intro r4 g4 hr4
-      obtain ⟨d, g3', hr4v, ha4, hg4, hdl, hdv⟩ := rx_bread f3.gi.live _ r4 g4 hr4
+      rcases rx_bread f3.gi.live _ r4 g4 hr4 with ⟨c, hre, hae⟩ | ⟨d, g3', hr4v, ha4, hg4, hdl, hdv⟩
+      · subst hre; exact Or.inr ⟨c, rfl, rfl, (f3.stepF hae).1, (f3.stepF hae).2⟩
       subst hr4v hg4
       have f4 := f3.step ha4
       obtain ⟨hpre, hgi, htk', hlen', hsame, hkept, hover'⟩ := take_hdr f4 htk hfifo
@@ -184,7 +203,7 @@ theorem header_spec (hdr P : List UInt8) (h : Handle) (g : RxG) (hi : RxGI hdr P
       rw [gwp_bind, gwp_modH]
       dsimp only
       rw [gwp_pure]
-      exact ⟨rfl, rfl, hgi, htk', hlen', hsame, hkept, hover'⟩
+      exact Or.inl ⟨rfl, rfl, hgi, htk', hlen', hsame, hkept, hover'⟩
     | false =>
       simp only [Bool.false_eq_true, if_false] at hhl ⊢
       rw [if_neg (by decide), gwp_bind, gwp_modH]
@@ -192,5 +211,5 @@ theorem header_spec (hdr P : List UInt8) (h : Handle) (g : RxG) (hi : RxGI hdr P
       rw [gwp_pure]
       have hnil : hdr = [] := List.eq_nil_of_length_eq_zero hhl
       subst hnil
-      exact ⟨rfl, rfl, f3.gi, f3.taken.trans htk, by simpa using f3.len, f3.same, fun hk _ => f3.kept hk, f3.over⟩
+      exact Or.inl ⟨rfl, rfl, f3.gi, f3.taken.trans htk, by simpa using f3.len, f3.same, fun hk _ => f3.kept hk, f3.over⟩
 end Sx
